@@ -59,6 +59,11 @@ func (an *Analyzer) step(s *State, f *Frame, ins ssa.Instruction, final bool) {
 			base = an.refOf(s, f, i.X)
 			n = Lin{an.lenTerm(base), 0}
 			et = xt.Elem()
+			if an.cfg.SliceInvariant != nil {
+				if ln, _, ok := an.cfg.SliceInvariant(i.X.Type()); ok {
+					s.meetIv(an.lenTerm(base), ln, ln)
+				}
+			}
 		case *types.Pointer:
 			base = an.addrOf(s, f, i.X)
 			arr := xt.Elem().Underlying().(*types.Array)
@@ -89,6 +94,10 @@ func (an *Analyzer) step(s *State, f *Frame, ins ssa.Instruction, final bool) {
 		base := an.refOf(s, f, i.X)
 		st := i.X.Type().Underlying().(*types.Struct)
 		ft := st.Field(i.Field).Type()
+		if fc, ok := s.mem[an.svalAddr(base, i.Field)]; ok {
+			an.bind(s, f, i, fc)
+			return
+		}
 		t := an.tt.mk("fld", fmt.Sprintf("%s.%d", base.key, i.Field), base, nil, ft, fmt.Sprintf("%s.#%d", base, i.Field))
 		if isIntType(ft) {
 			s.ints[vkey{f, i}] = Lin{t, 0}
@@ -393,6 +402,29 @@ func (an *Analyzer) stepUnOp(s *State, f *Frame, i *ssa.UnOp, final bool) {
 				}
 			}
 		}
+		if ia, isIA := i.X.(*ssa.IndexAddr); isIA && an.cfg.SliceInvariant != nil && !c.int && c.t != nil {
+			if _, nn, ok := an.cfg.SliceInvariant(ia.X.Type()); ok && nn {
+				s.nn[c.t] = true
+			}
+		}
+		if fa, isFA := i.X.(*ssa.FieldAddr); isFA && an.cfg.FieldNonNil != nil && !c.int && c.t != nil {
+			if an.cfg.FieldNonNil(fa.X.Type().Underlying().(*types.Pointer).Elem(), fa.Field) {
+				s.nn[c.t] = true
+			}
+		}
+		if st, isStruct := i.Type().Underlying().(*types.Struct); isStruct && addr.kind == "alloc" {
+			if _, bound := s.mem[addr]; !bound {
+				// snapshot of a local struct: remember the field contents under the value term
+				vt := an.valTerm(f, i)
+				for k := 0; k < st.NumFields() && k < 64; k++ {
+					fa := an.fieldAddr(addr, k, i.Type(), types.NewPointer(st.Field(k).Type()))
+					if fc, ok := s.mem[fa]; ok {
+						s.mem[an.svalAddr(vt, k)] = fc
+					}
+				}
+				c = cell{t: vt}
+			}
+		}
 		if isIntType(i.Type()) && !c.int {
 			c = cell{int: true, lin: Lin{an.valTerm(f, i), 0}}
 		}
@@ -569,7 +601,8 @@ func (an *Analyzer) stepBinOp(s *State, f *Frame, i *ssa.BinOp, final bool) {
 			nz := s.lo(y) > 0 || s.hi(y) < 0
 			an.record(f, i, "K4", exprOf(i.X)+i.Op.String()+exprOf(i.Y), nz, "divisor "+exprOf(i.Y)+" may be zero", s)
 		}
-		if c, ok := constInt(i.Y); ok && c > 0 {
+		if y.base == nil && y.c > 0 {
+			c := y.c
 			if i.Op == token.REM {
 				if isUnsigned(i.Type()) || s.lo(x) >= 0 {
 					setRange(0, c-1)
@@ -710,7 +743,7 @@ func (an *Analyzer) stepSlice(s *State, f *Frame, i *ssa.Slice, final bool) {
 			why = "high " + hi.String() + " may exceed " + limit.String()
 		}
 		proved := okLo && okMid && okHi
-		if !proved && !okHi && okLo && okMid && an.cfg.PoolOK != nil && i.High != nil {
+		if !proved && okLo && an.cfg.PoolOK != nil && i.High != nil && i.Low == nil {
 			// buf[:size] back to pool capacity: discharged by pool uniformity when size is the pool's size option
 			if an.cfg.ConfigField != nil {
 				if o, fld := fieldOfLoad(i.High); fld != nil && an.cfg.ConfigField(o, fld) {
@@ -868,4 +901,13 @@ func optExprD(v ssa.Value, d int) string {
 		return ""
 	}
 	return exprDepth(v, d+1)
+}
+
+// svalAddr is the pseudo-location holding field k of an immutable struct value term.
+func (an *Analyzer) svalAddr(v *Term, k int) *Term {
+	t := an.tt.mk("sval", fmt.Sprintf("%s.%d", v.key, k), v, nil, nil, fmt.Sprintf("%s.#%d", v, k))
+	if _, ok := addrClasses[t]; !ok {
+		addrClasses[t] = "V:" + v.key
+	}
+	return t
 }
